@@ -376,3 +376,170 @@ func c19Tail(l []string) []string {
 	}
 	return l
 }
+
+// ---------------------------------------------------------------------------------------------
+// C19, second entry point: on-demand *static source* that never becomes ready (nobody listens on the
+// source address). Requests are answered exactly once by the start timeout or by the path being closed;
+// the cycle restarts on later demand; nothing stays wedged (the final shutdown must complete).
+// ---------------------------------------------------------------------------------------------
+
+func c19StaticPathYAML(port int) string {
+	return fmt.Sprintf("  p:\n    source: rtsp://127.0.0.1:%d/nothing\n    sourceOnDemand: yes\n    sourceOnDemandStartTimeout: %dms\n    sourceOnDemandCloseAfter: %dms\n",
+		port, c19StartTimeout.Milliseconds(), c19CloseAfter.Milliseconds())
+}
+
+func TestVerifC19OnDemandStaticSource(t *testing.T) {
+	rec := kit.R("TestVerifC19OnDemandStaticSource")
+	t.Cleanup(kit.Flush)
+
+	rapid.Check(t, func(t *rapid.T) {
+		port := vcFreeTCPPort() // free, i.e. connection refused: the source never becomes ready
+		confs, err := vcPathConfs(c19StaticPathYAML(port))
+		if err != nil {
+			t.Fatalf("harness: configuration rejected: %v", err)
+		}
+		pm := vcNewPM(confs, vcPMOpts{})
+		closed := false
+		defer func() {
+			if !closed {
+				go pm.Close()
+			}
+		}()
+
+		var hist []string
+		var all []*c19Req
+		multi, expiry, closeHeld := false, false, false
+		issue := func(kind string) *c19Req {
+			q := &c19Req{kind: kind, issued: time.Now(), done: make(chan struct{})}
+			all = append(all, q)
+			go func() {
+				var err error
+				if kind == "describe" {
+					_, err = pm.pathManager.Describe(defs.PathDescribeReq{AccessRequest: defs.PathAccessRequest{Name: "p", SkipAuth: true}})
+				} else {
+					var r *vcAttachedRdr
+					r, err = vcAttachRdr(pm.pathManager, "p", nil)
+					q.mu.Lock()
+					q.rdr = r
+					q.mu.Unlock()
+				}
+				q.mu.Lock()
+				q.returns++
+				q.stream, q.err, q.retAt = err == nil, err, time.Now()
+				q.mu.Unlock()
+				close(q.done)
+			}()
+			return q
+		}
+		fail := func(format string, args ...any) {
+			t.Fatalf("%s\n%s\nlog: %s", fmt.Sprintf(format, args...), strings.Join(hist, " ; "), strings.Join(c19Tail(pm.Log.Snapshot()), " | "))
+		}
+
+		bursts := rapid.IntRange(1, 3).Draw(t, "bursts")
+		for b := 0; b < bursts; b++ {
+			nd := rapid.IntRange(0, 3).Draw(t, "describes")
+			nr := rapid.IntRange(0, 3).Draw(t, "reads")
+			if nd+nr == 0 {
+				nr = 1
+			}
+			outcome := rapid.SampledFrom([]string{"timeout", "timeout", "deleteConf"}).Draw(t, "outcome")
+			hist = append(hist, fmt.Sprintf("burst(describe x%d, read x%d)->%s", nd, nr, outcome))
+			if nd+nr >= 2 {
+				multi = true
+			}
+			var qs []*c19Req
+			for i := 0; i < nd; i++ {
+				qs = append(qs, issue("describe"))
+			}
+			for i := 0; i < nr; i++ {
+				qs = append(qs, issue("read"))
+			}
+			switch outcome {
+			case "timeout":
+				expiry = true
+				for _, q := range qs {
+					select {
+					case <-q.done:
+					case <-time.After(c19StartTimeout + c19Slack):
+						fail("a held %s was never answered although the source never became ready (start timeout %v, waited %v)", q.kind, c19StartTimeout, c19StartTimeout+c19Slack)
+					}
+					_, st, _, at := q.result()
+					if st {
+						fail("a held %s was given a stream although the source never became ready", q.kind)
+					}
+					if d := at.Sub(q.issued); d < c19StartTimeout-c19U {
+						fail("a held %s failed after %v, well before the start timeout %v", q.kind, d, c19StartTimeout)
+					}
+				}
+			case "deleteConf":
+				closeHeld = true
+				time.Sleep(c19U)
+				empty, err := vcPathConfs("  other:\n")
+				if err != nil {
+					t.Fatalf("harness: %v", err)
+				}
+				done := make(chan struct{})
+				go func() {
+					pm.pathManager.ReloadPathConfs(empty)
+					pm.Barrier()
+					close(done)
+				}()
+				select {
+				case <-done:
+				case <-time.After(c19StartTimeout + c19Slack):
+					fail("closing the path (configuration removed) did not complete")
+				}
+				for _, q := range qs {
+					select {
+					case <-q.done:
+					case <-time.After(c19Slack):
+						fail("a held %s was not answered when the path was closed", q.kind)
+					}
+					if _, st, _, _ := q.result(); st {
+						fail("a held %s was given a stream by a path that was closed without source", q.kind)
+					}
+				}
+				again, err := vcPathConfs(c19StaticPathYAML(port))
+				if err != nil {
+					t.Fatalf("harness: %v", err)
+				}
+				pm.pathManager.ReloadPathConfs(again)
+				pm.Barrier()
+			}
+		}
+
+		// shutdown must complete (a request answered twice wedges the path routine forever)
+		done := make(chan struct{})
+		go func() {
+			pm.Close()
+			close(done)
+		}()
+		select {
+		case <-done:
+			closed = true
+		case <-time.After(c19StartTimeout + c19Slack):
+			closed = true // leak the wedged manager rather than blocking the test process
+			fail("shutdown of the path manager did not complete")
+		}
+		time.Sleep(5 * time.Millisecond)
+		for _, q := range all {
+			if n, _, _, _ := q.result(); n != 1 {
+				fail("a %s returned %d times", q.kind, n)
+			}
+		}
+		var cls []string
+		if multi {
+			cls = append(cls, "multi-held")
+		}
+		if expiry {
+			cls = append(cls, "start-timeout")
+		}
+		if closeHeld {
+			cls = append(cls, "close-while-held")
+		}
+		if bursts >= 2 {
+			cls = append(cls, "restart")
+		}
+		rec.Case(multi && bursts >= 2, strings.Join(hist, " ; "), cls...)
+	})
+}
